@@ -2,9 +2,11 @@ package interp
 
 import (
 	"fmt"
+	"os"
 	"sort"
 	"strings"
 	"sync"
+	"time"
 
 	"verif/engine/smt"
 )
@@ -284,9 +286,21 @@ func (ex *explorer) clonePrefix(extra decision) []decision {
 
 func (ex *explorer) check(extra *smt.Term) (smt.Result, map[*smt.Term]uint64) {
 	ex.solver.SyncTo(ex.pc)
+	start := time.Now()
 	res, m := ex.solver.Check(extra, true)
+	if slowLog != "" {
+		if d := time.Since(start); d > 100*time.Millisecond {
+			f, err := os.OpenFile(slowLog, os.O_APPEND|os.O_CREATE|os.O_WRONLY, 0o644)
+			if err == nil {
+				fmt.Fprintf(f, "; slow query %v result %v pc=%d\n%s\n", d, res, len(ex.pc), smt.Script(ex.pc, extra))
+				f.Close()
+			}
+		}
+	}
 	return res, m
 }
+
+var slowLog = os.Getenv("VP_SLOWLOG")
 
 // branch decides a symbolic condition on the current path, scheduling the other side when it
 // is feasible too.
